@@ -4,7 +4,10 @@ ID=$1; PATCH=$2; TIER=${3:-quick}
 cd /repo || exit 2
 if [ -n "$(git status --porcelain --untracked-files=no)" ]; then echo "repo not clean"; exit 2; fi
 git apply "$PATCH" || { echo "patch does not apply"; exit 2; }
+# evidence must only ever come from the unchanged tree: keep the committed file aside while the patched tree is checked
+cp /verif/evidence/$ID.json /verif/.work-evidence-$ID.json 2>/dev/null
 cd /verif && ./check $ID $TIER 2>&1 | grep -v "^Traceback\|^  " | tail -${LINES_OUT:-6}
 rc=${PIPESTATUS[0]}
 git -C /repo checkout -- . 
+[ -f /verif/.work-evidence-$ID.json ] && mv /verif/.work-evidence-$ID.json /verif/evidence/$ID.json
 echo "seedtest $ID rc=$rc"
